@@ -58,6 +58,12 @@ func main() {
 		}
 		ast.Inspect(f, func(n ast.Node) bool {
 			switch x := n.(type) {
+			case *ast.SelectorExpr:
+				if id, ok := x.X.(*ast.Ident); ok && id.Name == "math" {
+					if v, known := map[string]int{"MaxInt8": 127, "MaxUint8": 255, "MaxInt16": 32767, "MaxUint16": 65535}[x.Sel.Name]; known {
+						ints[v] = true
+					}
+				}
 			case *ast.Field:
 				if x.Tag != nil {
 					imports[x.Tag] = true
